@@ -15,6 +15,8 @@ import Driver.MtHist
 import Driver.BddChk
 import Driver.ParseChk
 import Driver.MetaChk
+import Driver.GlueChk
+import Driver.CliArgsChk
 import Driver.CacheChk
 import Driver.LtsEngineChk
 import Driver.BinRelChk
@@ -524,6 +526,8 @@ def dispatch (kind : String) (args res : List String) : Except String (Findings 
   | "bddsim" => utilKind "bottom-up BDD downward simulation" (BddSimChk.check args res)
   | "binrel" => utilKind "BinaryRelation" (BinRelChk.check args res)
   | "cacheh" => utilKind "Util::Cache / CachedBinaryOp" (CacheChk.check args res)
+  | "glue" => utilKind "symbol assignments / dictionaries / translators" (GlueChk.check args res)
+  | "cliargs" => utilKind "command-line parsing and option handling" (CliArgsChk.check args res)
   | "cliop" => checkCliOp args res
   | "apisweep" =>
     -- API sweep of C20: nothing functional is judged (a sanitizer report / crash never reaches this point); the tag is
